@@ -285,8 +285,20 @@ def build(spec):
             flds = [build_field(f, engine, B) for f in t['fields']]
             bases = (JSONWizard,) if spec.get('mixin') else ()
             obj = dataclasses.make_dataclass(t['name'], flds, bases=bases)
+            # the class's OWN Meta (nested classes may differ from the root in settings that
+            # change which names their generated functions mention)
+            own = t.get('meta') or {}
+            lk = {}
             if t.get('tag') is not None:
-                LoadMeta(tag=t['tag']).bind_to(obj)
+                lk['tag'] = t['tag']
+            if t['id'] != spec['root']:
+                if engine == 'v1' and own.get('v1_unknown'):
+                    lk['v1'] = True
+                    lk['v1_on_unknown_key'] = own['v1_unknown']
+                if engine != 'v1' and own.get('raise_unknown'):
+                    lk['raise_on_unknown_json_key'] = True
+            if lk:
+                LoadMeta(**lk).bind_to(obj)
         else:
             raise ValueError(kind)
         B.types[t['id']] = obj
@@ -356,7 +368,11 @@ def outcome(fn, B):
         d = err_info(e)
         # class_name may be the class object or its name; render as spec id when known
         cn = getattr(e, 'class_name', None)
-        out = {'err': d['err'], 'lib': d['lib'], 'msg': d.get('msg')}
+        try:
+            full = str(e)[:3000]
+        except BaseException:  # noqa
+            full = d.get('msg')
+        out = {'err': d['err'], 'lib': d['lib'], 'msg': full}
         fn_ = d.get('field_name')
         if isinstance(fn_, str):
             out['field_name'] = fn_
